@@ -1,0 +1,10 @@
+//go:build verif
+
+package virtual
+
+// Contracts for the govc verifier (/verif). This file contains comments only;
+// it does not change the compiled package.
+
+//@ func (*fileBackedFile).lockMutatingData
+//@   props C14 C16
+//@   lockeffect f.lock +1
